@@ -440,7 +440,7 @@ func (x *Exec) callFunction(caller *frame, fn *ssa.Function, args []Value, env [
 	}
 	if fi.black {
 		x.stubSeen["blackhole:"+fi.name] = true
-		return zeroResults(fn.Signature)
+		return blackholeResults(fn.Signature, args)
 	}
 	return x.callBody(caller, fn, args, env...)
 }
@@ -1435,4 +1435,45 @@ func (x *Exec) protectedInitCall(fr *frame, instr *ssa.Call, fn Value, args []Va
 		}
 	}()
 	return x.call(fr, fn, args)
+}
+
+// blackholeResults: zero results, except that a context.Context result is the (first)
+// context.Context argument -- tracing/metrics wrappers derive a context from their parent and a
+// nil context would be a spurious panic in the caller.
+func blackholeResults(sig *types.Signature, args []Value) Value {
+	r := zeroResults(sig)
+	var ctx Value
+	off := 0
+	if sig.Recv() != nil {
+		off = 1
+	}
+	for i := 0; i < sig.Params().Len() && i+off < len(args); i++ {
+		if isContextType(sig.Params().At(i).Type()) {
+			ctx = args[i+off]
+			break
+		}
+	}
+	if ctx == nil {
+		return r
+	}
+	switch sig.Results().Len() {
+	case 0:
+	case 1:
+		if isContextType(sig.Results().At(0).Type()) {
+			return ctx
+		}
+	default:
+		t := r.(Tuple)
+		for i := 0; i < sig.Results().Len(); i++ {
+			if isContextType(sig.Results().At(i).Type()) {
+				t[i] = ctx
+			}
+		}
+	}
+	return r
+}
+
+func isContextType(t types.Type) bool {
+	n, ok := t.(*types.Named)
+	return ok && n.Obj().Pkg() != nil && n.Obj().Pkg().Path() == "context" && n.Obj().Name() == "Context"
 }
